@@ -277,7 +277,158 @@ impl Felt {
     pub fn to_raw_word(&self) -> W {
         self.0
     }
+    // ---- further API of the real crate, so that realistic edits of /repo still compile
+    pub fn to_le_digits(&self) -> [u64; 4] {
+        self.0
+    }
+    pub fn to_be_digits(&self) -> [u64; 4] {
+        [self.0[3], self.0[2], self.0[1], self.0[0]]
+    }
+    pub fn to_bytes_le(&self) -> [u8; 32] {
+        let mut b = self.to_bytes_be();
+        b.reverse();
+        b
+    }
+    pub fn from_bytes_le(bytes: &[u8; 32]) -> Self {
+        let mut b = *bytes;
+        b.reverse();
+        Self::from_bytes_be(&b)
+    }
+    pub fn from_bytes_le_slice(bytes: &[u8]) -> Self {
+        assert!(bytes.len() <= 32, "MODEL-LIMIT: from_bytes_le_slice longer than 32 bytes");
+        let mut buf = [0u8; 32];
+        let mut i = 0;
+        while i < bytes.len() {
+            buf[31 - i] = bytes[i];
+            i += 1;
+        }
+        Self::from_bytes_be(&buf)
+    }
+    pub fn bits(&self) -> usize {
+        if self.is_zero() {
+            0
+        } else {
+            fc::bit_len(&self.0) as usize
+        }
+    }
+    pub fn to_bits_le(&self) -> [bool; 256] {
+        let mut o = [false; 256];
+        let mut i = 0;
+        while i < 256 {
+            o[i] = (self.0[i / 64] >> (i % 64)) & 1 == 1;
+            i += 1;
+        }
+        o
+    }
+    pub fn to_bits_be(&self) -> [bool; 256] {
+        let mut o = self.to_bits_le();
+        o.reverse();
+        o
+    }
+    pub fn square(&self) -> Self {
+        Self::mul_raw(*self, *self)
+    }
+    pub fn double(&self) -> Self {
+        add_f(*self, *self)
+    }
+    pub fn inverse(&self) -> Option<Self> {
+        if self.is_zero() {
+            None
+        } else {
+            Some(Felt::ONE.field_div(&NonZeroFelt(*self)))
+        }
+    }
+    pub fn mod_floor(&self, n: &NonZeroFelt) -> Self {
+        self.div_rem(n).1
+    }
+    pub fn to_hex_string(&self) -> alloc::string::String {
+        alloc::format!("{:#x}", self)
+    }
+    pub fn to_fixed_hex_string(&self) -> alloc::string::String {
+        alloc::format!("0x{:016x}{:016x}{:016x}{:016x}", self.0[3], self.0[2], self.0[1], self.0[0])
+    }
+    pub fn from_hex(hex_string: &str) -> Result<Self, FromStrError> {
+        let b = hex_string.as_bytes();
+        let mut i = 0;
+        if b.len() >= 2 && b[0] == b'0' && (b[1] == b'x' || b[1] == b'X') {
+            i = 2;
+        }
+        if b.len() - i > 64 || b.len() == i {
+            return Err(FromStrError);
+        }
+        let mut w: W = [0; 4];
+        while i < b.len() {
+            let v = match b[i] {
+                b'0'..=b'9' => (b[i] - b'0') as u64,
+                b'a'..=b'f' => (b[i] - b'a' + 10) as u64,
+                b'A'..=b'F' => (b[i] - b'A' + 10) as u64,
+                _ => return Err(FromStrError),
+            };
+            w = [(w[0] << 4) | v, (w[1] << 4) | (w[0] >> 60), (w[2] << 4) | (w[1] >> 60), (w[3] << 4) | (w[2] >> 60)];
+            i += 1;
+        }
+        Ok(Felt(fc::reduce(&w)))
+    }
+    pub fn from_dec_str(dec_string: &str) -> Result<Self, FromStrError> {
+        let mut acc = Felt::ZERO;
+        let b = dec_string.as_bytes();
+        if b.is_empty() {
+            return Err(FromStrError);
+        }
+        let mut i = 0;
+        while i < b.len() {
+            if b[i] < b'0' || b[i] > b'9' {
+                return Err(FromStrError);
+            }
+            acc = Felt(fc::mul_small(10, 4, &acc.0));
+            acc = add_f(acc, Felt::from((b[i] - b'0') as u64));
+            i += 1;
+        }
+        Ok(acc)
+    }
 }
+impl core::iter::Sum for Felt {
+    fn sum<I: Iterator<Item = Self>>(iter: I) -> Self {
+        let mut a = Felt::ZERO;
+        for x in iter {
+            a = add_f(a, x);
+        }
+        a
+    }
+}
+impl<'a> core::iter::Sum<&'a Felt> for Felt {
+    fn sum<I: Iterator<Item = &'a Felt>>(iter: I) -> Self {
+        let mut a = Felt::ZERO;
+        for x in iter {
+            a = add_f(a, *x);
+        }
+        a
+    }
+}
+impl core::str::FromStr for Felt {
+    type Err = FromStrError;
+    fn from_str(s: &str) -> Result<Self, Self::Err> {
+        if s.starts_with("0x") {
+            Felt::from_hex(s)
+        } else {
+            Felt::from_dec_str(s)
+        }
+    }
+}
+impl core::fmt::LowerHex for Felt {
+    fn fmt(&self, f: &mut core::fmt::Formatter<'_>) -> core::fmt::Result {
+        if f.alternate() {
+            write!(f, "0x")?;
+        }
+        write!(f, "{:x}{:016x}{:016x}{:016x}", self.0[3], self.0[2], self.0[1], self.0[0])
+    }
+}
+impl AsRef<Felt> for Felt {
+    fn as_ref(&self) -> &Felt {
+        self
+    }
+}
+
 
 macro_rules! from_uint { ($($t:ty),*) => { $( impl From<$t> for Felt { #[inline(always)] fn from(v: $t) -> Self { Felt(fc::from_u128(v as u128)) } } )* } }
 from_uint!(u8, u16, u32, u64, u128, usize);
